@@ -48,7 +48,7 @@ def do_job(job):
     plan = job["plan"]
     if plan is None:
       plan = eng.gen_plan(job_seed(job), tier=job["tier"],
-                          profile=job["profile"])
+                          profile=job["profile"], focus=job["property"])
       plan["run_seed"] = job_seed(job)
     plan.setdefault("focus", job["property"])
     events, violations, stats = eng.execute(plan)
